@@ -62,41 +62,48 @@ def node(sieve=True, max_leaves=6):
 DEG_MAX = 16
 
 
-def render_node(n, k, pdeg):
-    """node -> (driver expression, degree estimate); k = number of earlier pool elements, pdeg = their
-    degree estimates.  Products / powers whose estimated degree exceeds DEG_MAX are replaced by their first
-    operand, so that expand() of anything derived from the pool stays small (bounded by construction)."""
+def render_node(n, k, pdeg, ped=None):
+    """node -> (driver expression, degree estimate, exponent depth); k = number of earlier pool elements,
+    pdeg / ped = their degree estimates / exponent depths.  Products / powers whose estimated degree exceeds
+    DEG_MAX are replaced by their first operand, and a symbolic exponent is only put on top of at most one other
+    symbolic exponent, so that expand() and numeric substitution into anything derived from the pool stay small
+    (bounded by construction: b**(x**2) at x = 7919 is still cheap, a tower of height 3 is not)."""
+    ped = ped if ped is not None else [0] * len(pdeg)
     if "s" in n:
-        return ["symbol", n["s"]], 1
+        return ["symbol", n["s"]], 1, 0
     if "i" in n:
-        return ["integer", n["i"]], 0
+        return ["integer", n["i"]], 0, 0
     if "q" in n:
-        return ["rational", n["q"][0], n["q"][1]], 0
+        return ["rational", n["q"][0], n["q"][1]], 0, 0
     if "c" in n:
-        return ["constant", n["c"]], 0
+        return ["constant", n["c"]], 0, 0
     if "ref" in n:
         if k == 0:
-            return ["symbol", "x"], 1
-        return ["$", n["ref"] % k], pdeg[n["ref"] % k]
-    kids = [render_node(c, k, pdeg) for c in n["x"]]
+            return ["symbol", "x"], 1, 0
+        return ["$", n["ref"] % k], pdeg[n["ref"] % k], ped[n["ref"] % k]
+    kids = [render_node(c, k, pdeg, ped) for c in n["x"]]
+    edmax = max(e for _, _, e in kids)
     if "fs" in n:
-        return ["function_symbol", n["fs"], ["list"] + [e for e, _ in kids]], max(1, max(d for _, d in kids))
+        return ["function_symbol", n["fs"], ["list"] + [e for e, _, _ in kids]], max(1, max(d for _, d, _ in kids)), edmax
     f = n["f"]
     if f in ("mul", "div"):
         d = kids[0][1] + kids[1][1]
         if d > DEG_MAX:
             return kids[0]
-        return [f, kids[0][0], kids[1][0]], d
+        return [f, kids[0][0], kids[1][0]], d, edmax
     if f == "pow":
         ex = n["x"][1]
         m = abs(ex["i"]) if "i" in ex else 2
         d = kids[0][1] * max(m, 1)
-        if d > DEG_MAX or kids[1][1] > 1:
+        symbolic = "s" in ex
+        if d > DEG_MAX or kids[1][1] > 1 or (symbolic and kids[0][2] >= 1):
             return kids[0]
-        return [f, kids[0][0], kids[1][0]], max(d, 1)
+        return [f, kids[0][0], kids[1][0]], max(d, 1), kids[0][2] + (1 if symbolic else 0)
     if f in ("add", "sub"):
-        return [f, kids[0][0], kids[1][0]], max(kids[0][1], kids[1][1])
-    return [f] + [e for e, _ in kids], max(1, max(d for _, d in kids))
+        return [f, kids[0][0], kids[1][0]], max(kids[0][1], kids[1][1]), edmax
+    if f == "exp":
+        return [f, kids[0][0]], max(1, kids[0][1]), edmax + 1
+    return [f] + [e for e, _, _ in kids], max(1, max(d for _, d, _ in kids)), edmax
 
 
 def node_heads(n, acc):
@@ -164,7 +171,7 @@ def node_sieve_syms(n, k, psy):
     return acc
 
 
-def render_instr(ins, bregs, deg, sieve, ssy=None):
+def render_instr(ins, bregs, deg, sieve, ssy=None, ed=None):
     """-> (statement, degree estimate of its result); bregs = the visible registers that hold expressions
     (pool elements and the thread's own expression-valued results), deg = degree estimates by register"""
     def pick(i):
@@ -207,10 +214,15 @@ def render_instr(ins, bregs, deg, sieve, ssy=None):
             sym = cand[ins["a"] % len(cand)]
             if "i" not in v or not (2 <= v["i"] <= 7919):
                 v = {"i": [101, 1000, 30, 7919, 12][ins["a"] % 5]}
+            if ed is not None and ed[ia] >= 2:
+                v = {"i": v["i"] % 11 + 2}
             return ["subs", a, ["list", ["list", ["symbol", sym], _val(v)]]], deg[ia]
+        if ed is not None and "i" in v and abs(v["i"]) > 12 and ed[ia] >= 2:
+            v = {"i": v["i"] % 11 + 2}  # numbers substituted under two levels of symbolic exponents stay small
         if "reg" in v:
             iv = pick(v["reg"])
-            if sieve or deg[ia] * max(deg[iv], 1) > DEG_MAX:
+            if sieve or deg[ia] * max(deg[iv], 1) > DEG_MAX or (ed is not None and ed[ia] >= 1 and ed[iv] >= 1):
+                # (an expression with a symbolic exponent is never substituted under another symbolic exponent)
                 # with PrimePi / Primorial nodes in the pool a substituted value becomes a sieve limit: small ints only
                 v = {"i": v["reg"] % 50 + 2}
                 return ["subs", a, ["list", ["list", ["symbol", ins["s"]], _val(v)]]], deg[ia]
@@ -224,16 +236,28 @@ def render_instr(ins, bregs, deg, sieve, ssy=None):
     raise ValueError(op)
 
 
+def _regs_of(e):
+    out = []
+    for x in e[1:]:
+        if isinstance(x, list):
+            if len(x) == 2 and x[0] == "$":
+                out.append(x)
+            else:
+                out += _regs_of(["_"] + [y for y in x if isinstance(y, list)])
+    return out
+
+
 def compile_case(case):
     """-> (request text, P, touched) ; touched[t] = list of (pool index, op) the thread reads directly"""
     pool = case["pool"]
     P = len(pool)
     sieve = uses_sieve(case)
-    pdeg, ptx, psy = [], [], []
+    pdeg, ptx, psy, ped = [], [], [], []
     for k, n in enumerate(pool):
-        e, d = render_node(n, k, pdeg)
+        e, d, xd = render_node(n, k, pdeg, ped)
         ptx.append(sx(e))
         pdeg.append(d)
+        ped.append(xd)
         psy.append(node_sieve_syms(n, k, psy) if sieve else set())
     parts = ["(pool " + " ".join(ptx) + ")"]
     touched = []
@@ -242,11 +266,15 @@ def compile_case(case):
         tt = []
         deg = list(pdeg)
         ssy = [set(x) for x in psy]
+        ed = list(ped)
         bregs = list(range(P))
         for j, ins in enumerate(lst):
-            e, d = render_instr(ins, bregs, deg, sieve, ssy)
+            e, d = render_instr(ins, bregs, deg, sieve, ssy, ed)
             stm.append(sx(e))
             deg.append(d)
+            # exponent depth of the result: sum over the operand registers (substituting an expression for a
+            # symbol can stack towers; an over-approximation only makes later numbers smaller)
+            ed.append(sum(ed[x[1]] for x in _regs_of(e)))
             # sieve symbols of the result: union over the operand registers (an over-approximation is harmless)
             u = set()
             for x in e[1:]:
